@@ -68,6 +68,7 @@ func TestVerifC09(t *testing.T) {
 		if shim {
 			sp = "verifshim"
 		}
+		*shimPath = sp // as main() has it: the flag is what hostProxy is called with
 		hp, err := hostProxy(context.Background(), *host, sp, shim, false)
 		if err != nil {
 			t.Fatal(err)
@@ -119,7 +120,9 @@ func TestVerifC09(t *testing.T) {
 				}
 				fmt.Fprintf(&raw, "Content-Length: %d\r\n\r\n%s", len(body), body)
 			} else {
-				fmt.Fprintf(&raw, "GET /p?tok=%s HTTP/1.1\r\nHost: verif.example\r\n", c.tok)
+				// backend paths that merely resemble the shim's: they start with the same characters, or contain it further down
+				path := []string{"/p", "/verifshim-admin/users", "/p", "/verifshim.js", "/verifshimmy/data", "/x/verifshim/data", "/p", "/verifshim-poll"}[i%8]
+				fmt.Fprintf(&raw, "GET %s?tok=%s HTTP/1.1\r\nHost: verif.example\r\n", path, c.tok)
 				for _, f := range c.fields {
 					fmt.Fprintf(&raw, "%s: %s\r\n", f[0], f[1])
 				}
@@ -153,5 +156,6 @@ func TestVerifC09(t *testing.T) {
 		sn.mu.Unlock()
 	}
 	*forwardUserID, *stripCredentials = false, false
+	*shimPath = ""
 	sessionLRU = nil
 }
